@@ -14,8 +14,8 @@
 
    Not covered by a theorem (tie only, see notes/C24.md): the byte layout of the TOC and of the
    postings offset table inside a whole index file, the sampled-offset lookups of the Reader,
-   segment cutting; alterations of the LENGTH PREFIX of a record (see C24_length_prefix_partial
-   below for what is and is not provable there). *)
+   segment cutting.  For alterations of the LENGTH PREFIX of a record only the `_partial`
+   theorems at the end are provable (see the comment there). *)
 From Coq Require Import List NArith ZArith Bool Lia Sorting.Sorted.
 From Verif Require Import lib.Int64 lib.Bytes lib.Varint model.BlockFmt proof.BlockFmtProofs.
 Import ListNotations.
@@ -96,6 +96,43 @@ Theorem C24_series_corruption_detected : forall syms content pre suf id pos b,
 Proof. exact (series_corruption_detected crc crc_range crc_detects). Qed.
 
 End C24.
+
+(* ---------------------------------------------------------------- the length prefix
+   Full statement wanted by the property: altering a byte of the uvarint length prefix of a
+   record makes the read of that record fail (or return the same data).
+   It is NOT provable, and false for a 2^-32 fraction of file contents: the altered prefix
+   moves the window over which the reader computes the CRC and the four bytes it compares with;
+   nothing a checksum guarantees about single-byte alterations applies to two different windows.
+   What is proved (for every checksum function, no hypothesis on it at all): whatever the reader
+   returns as data after such an alteration comes from a DIFFERENT record extent (another length
+   or another start) — it never re-reads the original extent and never returns the original
+   extent with other content; so only a checksum coincidence over the other extent lets data
+   through.  Missing for the full statement: excluding that coincidence (impossible in general). *)
+Theorem C24_chunk_length_prefix_partial : forall crc enc data pre suf pos b r,
+  blen data < two35 -> bytes_ok (enc :: data) -> bytes_ok suf -> b < 256 ->
+  (pos < length (put_uvarint (blen data)))%nat -> nth pos (put_uvarint (blen data)) 0 <> b ->
+  let file' := alter (length pre + pos) b (pre ++ enc_chunk_record crc enc data ++ suf) in
+  chunk_at crc file' (blen pre) = ROk r ->
+  exists l' n', uvarint5 file' (blen pre) = Some (l', n') /\
+                (l', n') <> (blen data, blen (put_uvarint (blen data))).
+Proof. exact chunk_length_prefix_partial. Qed.
+
+Theorem C24_series_length_prefix_partial : forall crc syms content pre suf id pos b r,
+  blen content < two35 -> bytes_ok content -> bytes_ok suf -> b < 256 ->
+  blen pre = id * 16 ->
+  (pos < length (put_uvarint (blen content)))%nat -> nth pos (put_uvarint (blen content)) 0 <> b ->
+  let file' := alter (length pre + pos) b (pre ++ frame_uvarint crc content ++ suf) in
+  series_at crc syms file' id = ROk r ->
+  exists l' n', uvarint5 file' (blen pre) = Some (l', n') /\
+                (l', n') <> (blen content, blen (put_uvarint (blen content))).
+Proof. exact series_length_prefix_partial. Qed.
+
+(* an altered length prefix in a concrete segment: 3 -> 4 makes the record reach beyond the file *)
+Example C24_length_prefix_example :
+  let seg := seg_header ++ enc_chunk_record crc32c 1 [10; 20; 30] in
+  chunk_at crc32c (alter 8 4 seg) 8 = RErr RSize /\ chunk_at crc32c (alter 8 2 seg) 8 = RErr RCrc /\
+  chunk_at crc32c (alter 8 131 seg) 8 = RErr RSize.
+Proof. vm_compute. auto. Qed.
 
 (* ---------------------------------------------------------------- non-vacuity *)
 (* the two checksum hypotheses are jointly satisfiable: the byte sum mod 2^32 has both *)
